@@ -77,9 +77,41 @@ def run_rules(prop: str, repo_root: str, tier: str) -> Context:
                       f"{str(sys.exc_info()[1])[:120]}", stmt=f"uninterpretable structure at {where}")
         ctx.rule("R0", "the anchored code has a form the rules can interpret.")
         ctx.min_failures.clear()
+    _per_call_reading(ctx, prop, repo)
     if not ctx.obligations:
         raise AnalysisError(f"{prop}: no obligation was evaluated")
     return ctx
+
+
+# cached_property on these classes is part of the reviewed tree: the objects are immutable
+# after construction and the cached quantities derive from constructor arguments only
+_MEMO_BASELINE_FILES = ("liesel/distributions/mvn_degen.py",)
+_IMMUTABLE_RESULTS = {"int", "float", "bool", "str", "bytes", "None", "EpochType"}
+
+
+def _per_call_reading(ctx: Context, prop: str, repo: Repo) -> None:
+    """Every rule reads the body of a function as what a call does.  A memoising decorator
+    (`lru_cache`, `cache`, a home-made `memoize`, a new `cached_property`) on a function
+    the rules consulted breaks that reading: later calls return the first call's objects,
+    whatever the receiver's or the module's state is by then.  Reported as unproven (R0)
+    unless the declared result is an immutable scalar."""
+    for q in sorted(ctx.analysed_functions):
+        fi = repo.functions.get(q)
+        if fi is None or fi.file.endswith(_MEMO_BASELINE_FILES):
+            continue
+        memo = [d for d in fi.decorators()
+                if d.split(".")[-1] in ("lru_cache", "cache", "cached_property")
+                or "memo" in d.lower()]
+        if not memo:
+            continue
+        ret = getattr(fi.node, "returns", None)
+        if ret is not None and ast.unparse(ret) in _IMMUTABLE_RESULTS:
+            continue
+        ctx.rule("R0", "the functions a rule interprets run their body on every call.")
+        ctx.ob(f"{prop}.R0", fi, f"{fi.qualname} runs its body on every call (the rules read "
+                                 f"it that way); a memoised result outlives the state it was "
+                                 f"computed from and is shared between callers", False,
+               unproven=True, detail=f"decorators {memo}", stmt=f"{fi.qualname} memoised by {memo}")
 
 
 def cmd_check(args) -> int:
